@@ -800,7 +800,7 @@ Section Step.
     - destruct (view_is_view _ _ _ _ _ _ _ _ _ He) as (Hio & Hcap & Hc0).
       destruct He as (H1 & H2 & H3 & H4 & H5 & H6 & H7 & H8 & H9 & H10 & ra & rdyn & re & rn & rb & Hra & Hrs & Hblk & Hrc).
       pose proof (entry_own _ _ _ _ _ _ _ _ HR Hra Hrs) as (G1 & G2 & G3 & G4 & G5 & G6 & G7 & G8 & G9 & _).
-      rewrite Hcap, H2, H3, H5, Hblk, G9. repeat split; try lia. intros; congruence.
+      rewrite Hcap, H2, H3, H5, Hblk, G9. repeat split; try lia; congruence.
   Qed.
 
   Theorem refinement ops : legal cmp sort find adler_init adler_upd tyf ops = true ->
